@@ -16,6 +16,8 @@
 //	dl <tok> <h> <tok> <h> | cs fin=h n=k          downloader / common block search against the honest peer (geometry.go)
 //	reset ... st=h                                 chains with finality stalled above height h (scenario.go)
 //	sfs h= n= gen= | ss d= n= | fs fin= n=         shouldFastSync / shouldSync / fast sync common block request (method.go)
+//	chain del|p|new|restart                        the responder's own chain changes, then glb / hcb / bfi (chainops.go)
+//	sync ... extra=<kinds> main=e                  more connected peers, failing in various ways (multipeer.go)
 //	reset ... sq=1 rc=1                            requester's own blocks without prevotes / recent timestamps (scenario.go)
 //	     [restart=1] [sy=1]                        (pseudo-property C04SYNC only, c04sync.go: requester restarted right
 //	                                               before; forced synchroniser run with the Executer's syncying flag set)
@@ -176,6 +178,8 @@ func (prop) RunImpl(c corr.Case) (outs []string, fails []corr.Fail) {
 				}
 			}
 			switch w[0] {
+			case "chain":
+				return fx.chainOp(w[1:])
 			case "sfs":
 				return fx.shouldFast(w[1:])
 			case "ss":
@@ -185,7 +189,7 @@ func (prop) RunImpl(c corr.Case) (outs []string, fails []corr.Fail) {
 			case "hcb":
 				ids := [][]byte{}
 				for _, t := range w[1:] {
-					id, err := cur.resolve(t)
+					id, err := fx.resolve(t)
 					if err != nil {
 						return "bad-op", nil
 					}
@@ -207,7 +211,7 @@ func (prop) RunImpl(c corr.Case) (outs []string, fails []corr.Fail) {
 				if len(w) != 2 {
 					return "bad-op", nil
 				}
-				id, err := cur.resolve(w[1])
+				id, err := fx.resolve(w[1])
 				if err != nil {
 					return "bad-op", nil
 				}
@@ -239,6 +243,7 @@ func (prop) Classify(c corr.Case, out []string) string {
 	kinds := map[string]bool{}
 	var prm params
 	finQ, w0reset := 0, ""
+	chainSteps := []string{}
 	for i, op := range c.Ops {
 		if i >= len(out) {
 			break
@@ -319,6 +324,10 @@ func (prop) Classify(c corr.Case, out []string) string {
 			}
 		case "gap", "lasth", "cbs":
 			kinds["heights"] = true
+		case "chain":
+			if len(w) == 2 {
+				chainSteps = append(chainSteps, w[1])
+			}
 		case "glb":
 			kinds["handler:last"] = true
 		case "hcb", "hcbnil", "hcbraw":
@@ -372,8 +381,21 @@ func (prop) Classify(c corr.Case, out []string) string {
 			if strings.Contains(w0reset, " rc=1") {
 				cl += ":recent"
 			}
+			if b.extra != "" || b.mainFail {
+				cl += ":peers=" + b.extra
+				if b.mainFail {
+					cl += "+main-fails"
+				}
+			}
 			return cl
 		}
+	}
+	if len(chainSteps) > 0 {
+		// the kinds of change the responder's chain went through (bounded: at most the first six steps)
+		if len(chainSteps) > 6 {
+			chainSteps = chainSteps[:6]
+		}
+		return "handlers-after:" + strings.Join(chainSteps, ">")
 	}
 	geo := []string{}
 	for k := range kinds {
@@ -796,6 +818,7 @@ func genSync(rng *rand.Rand, tier string) []corr.Case {
 	}
 	l = append(l, genSyncGeometry(rng, tier)...)
 	l = append(l, genSyncMethod(rng, tier)...)
+	l = append(l, genSyncMulti(rng, tier)...)
 	var cases []corr.Case
 	for _, sc := range l {
 		f, err := factsOf(sc.prm)
@@ -838,6 +861,7 @@ func (prop) Generate(rng *rand.Rand, tier string) []corr.Case {
 	cases = append(cases, genSync(rng, tier)...)
 	cases = append(cases, genGeometry(rng, tier)...)
 	cases = append(cases, genMethod(rng, tier)...)
+	cases = append(cases, genChainOps(rng, tier)...)
 	cases = append(cases, genHandlers(rng, tier)...)
 	cases = append(cases, genHelpers(rng, tier)...)
 	cases = append(cases, genBest(rng, tier)...)
